@@ -1,7 +1,7 @@
 /-
 Non-vacuity of the C12 round-trip statements: a concrete history (a chain declared subtypes-first in the emitted
 descriptor, a padded and an empty description, a feature named `self`, an array feature with an element type declared
-later) satisfies every hypothesis.  The history is evaluated on the kernel-reducible copy `createFeatureS`.
+later; no name carries surrounding whitespace) satisfies every hypothesis.  The history is evaluated on the kernel-reducible copy `createFeatureS`.
 -/
 import CassisModel.Proofs.TsXmlRoundTrip
 import CassisModel.Spec.TsXmlRoundTripCheck
@@ -29,6 +29,17 @@ theorem noShadowB_sound (ts : TypeSystem) (h : noShadowB ts = true) : NoShadow t
   intro t ht f hf g hg
   have := List.all_eq_true.mp (List.all_eq_true.mp (List.all_eq_true.mp h t ht) f hf) g hg
   simpa using this
+
+/-- `StrippedNames` with the kernel-evaluable padding test `noPad` -/
+def strippedNamesK (ts : TypeSystem) : Bool :=
+  ts.types.all (fun t => Gen.consts.predefined.contains t.name || t.name == DOCUMENT_ANNOTATION ||
+    (noPad t.name && t.own.all (fun f => noPad (renderFeat f).name)))
+
+theorem strippedNamesK_sound (ts : TypeSystem) (h : strippedNamesK ts = true) : StrippedNames Gen.consts ts := by
+  intro t ht hp hd
+  have := List.all_eq_true.mp h t ht
+  simp only [hp, Bool.false_or, Bool.or_eq_true, beq_iff_eq, hd, false_or, Bool.and_eq_true] at this
+  exact ⟨strip_of_noPad this.1, fun f hf => strip_of_noPad (List.all_eq_true.mp this.2 f hf)⟩
 
 def demoOps : List TsOp :=
   [.createType "x.A" ANNOTATION (some "  padded  "), .createType "x.B" "x.A" (some ""), .createType "a.C" "x.B" none,
@@ -66,6 +77,10 @@ theorem demo_noShadow : NoShadow (demoOps.foldl (applyOp Gen.consts) Gen.builtin
   rw [applyOp_eq_S]
   exact noShadowB_sound _ (by decide +kernel)
 
+theorem demo_stripped : StrippedNames Gen.consts (demoOps.foldl (applyOp Gen.consts) Gen.builtinTS) := by
+  rw [applyOp_eq_S]
+  exact strippedNamesK_sound _ (by decide +kernel)
+
 theorem demo_descriptor : toDescriptor Gen.consts (demoOps.foldl (applyOp Gen.consts) Gen.builtinTS) = .ok demoD := by
   rw [applyOp_eq_S]
   apply ok_of_toOption
@@ -80,7 +95,7 @@ theorem demo_roundtrip :
     ∃ ts', load Gen.consts demoD' = .ok ts' ∧
       SameXml (demoOps.foldl (applyOp Gen.consts) Gen.builtinTS) ts' ∧
       toDescriptor Gen.consts ts' = .ok (demoD.map trimT) :=
-  tsxml_roundtrip_aux demoOps demo_user demo_noShadow demoD demoD' demo_descriptor demo_perm
+  tsxml_roundtrip_aux demoOps demo_user demo_noShadow demo_stripped demoD demoD' demo_descriptor demo_perm
 
 /-- redeclared built-in types and a redeclared DocumentAnnotation, mixed into the descriptor -/
 def demoPre : Descriptor :=
@@ -111,8 +126,29 @@ theorem demo_redeclared :
       toDescriptor Gen.consts ts' = .ok (preOut ++ demoD.map trimT) ∧
       preOut.map (·.name) = sortStrs (demoPre.map (·.name)).eraseDups ∧
       ∀ e ∈ preOut, (find? Gen.builtinTSNoDoc e.name).map renderType = some e ∨ e = docEntry :=
-  tsxml_roundtrip_core demoOps demo_user demo_noShadow demoD (demoD' ++ demoPre) demoPre demo_descriptor
+  tsxml_roundtrip_core demoOps demo_user demo_noShadow demo_stripped demoD (demoD' ++ demoPre) demoPre demo_descriptor
     demo_pre demo_pre_notop demo_pre_nodup
     ((List.perm_append_comm).trans (List.Perm.append_left _ demo_perm))
+
+/-! ### recorded counterexamples, checked by the kernel -/
+
+/-- forces `hnt` (`Check.counterTop`): the redeclaration of `uima.cas.TOP` has the supertype `""` -/
+theorem counterTop_keyError :
+    (match counterTop with | .ok _ => none | .error e => some e) = some Err.keyError := by
+  have hd : ["uima.cas.TOP"].filterMap Check.builtinEntry = [{ name := "uima.cas.TOP", super := "" }] := by
+    decide +kernel
+  unfold counterTop load normalize
+  rw [hd, List.map_cons, List.map_nil, stripT_of_noPad_nodescr (by decide) rfl (by decide)]
+  decide +kernel
+
+/-- forces `StrippedNames` (`Check.hPadType`): the other hypotheses hold, the history has a padded type name -/
+theorem counterPadType_hyps : UserOnlyNoDoc Gen.consts hPadType ∧ NoShadow (hPadType.foldl (applyOp Gen.consts) Gen.builtinTS) := by
+  refine ⟨⟨trivial, ?_⟩, ?_⟩
+  · intro op hop
+    simp only [hPadType, List.mem_singleton] at hop
+    subst hop
+    trivial
+  · rw [applyOp_eq_S]
+    exact noShadowB_sound _ (by decide +kernel)
 
 end Cassis.TsXml.Demo
